@@ -462,9 +462,9 @@ def gen(ctx):
     cases = []
     gen_tables(ctx, cases)
     gen_relr(ctx, cases)
-    gen_hist(ctx, cases)
     gen_apply(ctx, cases)
     gen_dyn(ctx, cases)
+    gen_hist(ctx, cases)
     return cases
 
 
